@@ -241,3 +241,17 @@ PROPS["C04"] = dict(
     stages=[dict(name="gen", kind="gen", module="TTest.tla", cfg="TTest_gen.cfg",
                  consts=dict(Vals={"quick": "ValsQuick", "thorough": "ValsThorough"}, MaxLen={"quick": 4, "thorough": 5}))],
 )
+
+PROPS["C08"] = dict(
+    family="special", specdir="special",
+    technique="TLA+ BigInt definitions of Choose (Pascal rows as a state machine), Beta and BetaInc on the integer-parameter lattice, replayed into mathx; identities of the uninterpreted incomplete beta/gamma functions (symmetry, P+Q=1, monotonicity, exp multiplicativity, recurrence in a, domain) validated by TLC on recorded sweeps; off-lattice values compared with gonum/mathext on TLC-emitted parameter grids",
+    level_text="Special.tla: TLC walks Pascal's triangle to n = 200 (thorough 1000) checking symmetry and row sums, and enumerates I_x(a,b) for integers a, b <= 12 (thorough 30) and x = p/q, q in {2,3,5,16} (thorough also 7, 11), checking I_x(a,b) + I_{1-x}(b,a) = 1, end values and monotonicity exactly; the binder compares Choose (exact to n = 20, 1e-10 relative above, 0 out of range, symmetric), Lchoose, Beta and BetaInc with the exact values, BetaInc/GammaInc/GammaIncComp with gonum's cephes-derived functions on the emitted grids (parameters 0.05..300; x at 0, 1, near them, at the mean and both sides of the branch switch-over), the NaN domain rules and Sign. SpecialTrace.tla: recorded log-uniform sweeps (x concentrated at 0, 1, the mean and the switch-over) must satisfy the identities listed in the module",
+    level_note="Trusted: TLC, binder comparison code, gonum mathext (RegIncBeta, GammaIncReg, GammaIncRegComp) and math.Log for Lchoose. The 1e-9 accuracy clause for non-integer parameters is a differential comparison with that library, not model checking.",
+    stages=[
+        dict(name="gen", kind="gen", module="Special.tla", cfg="Special_gen.cfg",
+             consts=dict(MaxN={"quick": 200, "thorough": 1000}, MaxAB={"quick": 12, "thorough": 30}, XDens={"quick": "{2,3,5,16}", "thorough": "{2,3,5,7,11,16}"}),
+             timeout={"quick": 600, "thorough": 7000}),
+        dict(name="trace", kind="trace", module="SpecialTrace.tla", cfg="SpecialTrace.cfg",
+             record_args={"quick": ["-n", 40, "-pts", 40], "thorough": ["-n", 2000, "-pts", 80]}, shards={"quick": 8, "thorough": 16}),
+    ],
+)
